@@ -31,6 +31,7 @@ fn configs(u: &universe::Universe, tier: Tier) -> Vec<Cfg> {
         txs: ALL.to_vec(),
         max_dev: 1,
         depth: 5,
+        pending_pct: 25,
     };
     // count-limited pool (4 transactions, chains of 3); the spent-input cache holds 5 keys
     // and overflows all the time; blocks carry <= 1 transaction.
@@ -42,12 +43,12 @@ fn configs(u: &universe::Universe, tier: Tier) -> Vec<Cfg> {
             Cfg { name: "coins/count4-chain3-cache5", txs: FAMILY_COINS.to_vec(), ..base.clone() },
             Cfg { name: "contracts/count4-chain3-cache5", txs: FAMILY_CONTRACTS.to_vec(), ..base.clone() },
             // (a tighter gas limit, about three scripts, and one level less: keeps the quick tier short)
-            Cfg { max_gas: gas_a * 3 + gas_a / 2, depth: 4, ..gas(Cfg { name: "coins/gas3-chain3-cache65", txs: FAMILY_COINS.to_vec(), ..base.clone() }) },
+            Cfg { max_gas: gas_a * 3 + gas_a / 2, depth: 4, pending_pct: 34, ..gas(Cfg { name: "coins/gas3-chain3-cache65", txs: FAMILY_COINS.to_vec(), ..base.clone() }) },
         ],
         Tier::Thorough => vec![
             Cfg { name: "all/count4-chain3-cache5", rich: true, max_dev: 2, depth: 6, ..base.clone() },
             gas(Cfg { name: "all/gas4-chain3-cache65", rich: true, max_dev: 2, depth: 6, ..base.clone() }),
-            Cfg { name: "all/count3-chain2-cache4", max_txs: 3, chain_limit: 2, max_dev: 2, depth: 6, ..base.clone() },
+            Cfg { name: "all/count3-chain2-cache4", max_txs: 3, chain_limit: 2, max_dev: 2, depth: 6, pending_pct: 34, ..base.clone() },
             Cfg { name: "coins/count4-chain3-cache5", txs: FAMILY_COINS.to_vec(), rich: true, max_dev: 2, depth: 7, ..base.clone() },
             Cfg { name: "contracts/count4-chain3-cache5", txs: FAMILY_CONTRACTS.to_vec(), rich: true, max_dev: 2, depth: 7, ..base },
         ],
